@@ -39,3 +39,25 @@ pub async fn start_language_server<TCompilationProfile: CompilationProfile>(
         .map_err(|e| LocationFreeDiagnostic::from_error(e).wrap_vec())?;
     Ok(())
 }
+
+#[cfg(isographlabs_isograph_verif)]
+pub mod verif_exports {
+    pub use crate::code_action::on_code_action;
+    pub use crate::completion::on_completion;
+    pub use crate::diagnostic_notification::verif_iso_diagnostics_to_params;
+    pub use crate::document_highlight::on_document_highlight;
+    pub use crate::format::{char_index_to_position, on_format, verif_get_range_of_extraction};
+    pub use crate::goto_definition::{on_goto_definition, on_goto_definition_impl};
+    pub use crate::hover::{
+        LineChar, get_iso_literal_extraction_from_text_position_params, on_hover,
+        verif_find_iso_literal_extraction_under_cursor, verif_get_index_of_line_char,
+    };
+    pub use crate::location_utils::isograph_location_to_lsp_location;
+    pub use crate::lsp_state::LspState;
+    pub use crate::semantic_tokens::{
+        delta_line_delta_start, on_semantic_token_full_request, verif_lsp_tokens_of_parsed_literals,
+    };
+    pub use crate::text_document::{
+        on_did_change_text_document, on_did_close_text_document, on_did_open_text_document,
+    };
+}
